@@ -563,6 +563,9 @@ func VerifH_c11_signals() {
 		{[]string{"LPUSH", "k", "a", "b", "c"}, false, 3}, {[]string{"RPUSHX", "k", "a"}, true, 1}, {[]string{"LPUSHX", "k", "a", "b"}, true, 2},
 		{[]string{"LINSERT", "k", "BEFORE", "x", "a"}, true, 1}, {[]string{"LINSERT", "k", "AFTER", "x", "a"}, true, 1},
 		{[]string{"LMOVE", "src", "k", "LEFT", "RIGHT"}, false, 1}, {[]string{"RPOPLPUSH", "src", "k"}, false, 1},
+		// a rotation takes an element and puts one back: the list is non-empty again, so the
+		// wake-up the rotating client consumed must be handed on
+		{[]string{"LMOVE", "k", "k", "LEFT", "RIGHT"}, true, 1}, {[]string{"RPOPLPUSH", "k", "k"}, true, 1},
 		{[]string{"RENAME", "src", "k"}, false, 3}, {[]string{"COPY", "src", "k", "REPLACE"}, false, 3}, {[]string{"SORT", "st", "STORE", "k"}, false, 2},
 		{[]string{"LSET", "k", "0", "z"}, true, 0}, {[]string{"LREM", "k", "0", "nosuch"}, true, 0}, {[]string{"SET", "other", "1"}, false, 0},
 		{[]string{"RPUSH", "other", "a"}, false, 0}, {[]string{"LRANGE", "k", "0", "-1"}, false, 0},
